@@ -106,10 +106,10 @@ class DiagonalGridSearchOptimizer(BaseOptimizer):
                 self.high_dim_pointer % self.step_size,
             )
             current_pass_finished = (
-                (self.nth_trial + 1)
+                self.nth_trial * self.step_size // self.conv.search_space_size
+                > (self.nth_trial - 1)
                 * self.step_size
                 // self.conv.search_space_size
-                > self.nth_trial * self.step_size // self.conv.search_space_size
             )
             # Begin the next pass if current is finished.
             if current_pass_finished:
